@@ -73,7 +73,7 @@ class IntModUnpackSecret(_Pack):
     name = "pysnark.pack:PackIntMod.unpack"
 
     def configs(self, tier):
-        out = [dict(mod=m, pos=pos, mode=md) for m in (2, 5, 8) for pos in (0, 2) for md in ("plain", "ie")]
+        out = [dict(mod=m, pos=pos, mode=md) for m in (2, 3, 5, 7, 8) for pos in (0, 2) for md in ("plain", "ie")]   # 3, 7: all bits set is out of range
         # the bits pack() makes out of a secret are LinCombBool objects: they are recomposed as they are (their width
         # was enforced when they were made), for every schema width -- also one wider than the global bitlength
         out += [dict(mod=m, pos=0, mode="plain", bits="bool") for m in (5, 100, 1000)]
@@ -138,12 +138,15 @@ class ListPack(_Pack):
     name = "pysnark.pack:PackList.pack"
 
     def configs(self, tier):
-        return [dict(schema=s, kind=k) for s in ("flat", "nested") for k in ("plain", "secret")]
+        return [dict(schema=s, kind=k) for s in ("flat", "nested", "repeat_after_wide") for k in ("plain", "secret")]
 
     def _schema(self, c, name):
         pk = _pk(c)
         if name == "flat":
             return pk.PackList([pk.PackBool(), pk.PackIntMod(5), pk.PackIntMod(16)]), [2, 5, 16]
+        if name == "repeat_after_wide":
+            # the repetition starts at an offset larger than the width of its element
+            return pk.PackList([pk.PackIntMod(100), pk.PackRepeat(pk.PackBool(), 4), pk.PackRepeat(pk.PackIntMod(5), 2)]), None
         return pk.PackList([pk.PackIntMod(3), pk.PackRepeat(pk.PackIntMod(5), 2), pk.PackList([pk.PackBool(), pk.PackIntMod(8)])]), None
 
     def setup(self, c, cfg):
@@ -154,6 +157,13 @@ class ListPack(_Pack):
             vals = [mk("v0", 2), mk("v1", 5), mk("v2", 16)]
             self._mods = [2, 5, 16]
             self._flat = list(vals)
+        elif cfg["schema"] == "repeat_after_wide":
+            a = mk("a", 100)
+            bs = [mk("f%d" % i, 2) for i in range(4)]
+            cs = [mk("g%d" % i, 5) for i in range(2)]
+            vals = [a, bs, cs]
+            self._mods = [100, 2, 2, 2, 2, 5, 5]
+            self._flat = [a] + bs + cs
         else:
             a, b1, b2, c1, c2 = mk("a", 3), mk("b1", 5), mk("b2", 5), mk("c1", 2), mk("c2", 8)
             vals = [a, [b1, b2], [c1, c2]]
